@@ -1,6 +1,7 @@
 import Driver.Loop
 import Driver.Codec
 import PyGqlModel.Coerce
+import PyGqlModel.CoerceExec
 open PyGql PyGql.Coerce
 
 /-! Line-protocol driver of C07 (wire formats: harness/corr/C07_universe.py). -/
@@ -136,7 +137,24 @@ def item (reg : Reg) (fuel : Nat) (j : J) : J :=
       | .error .coercion => .obj [("err", .str "arguments")]
       | .error .fuel => .obj [("err", .str "fuel")]
       | .error .internal => .obj [("err", .str "internal")]
-      | .ok kw => .obj [("ok", kwToWire kw), ("vars", kwToWire env)]
+      | .ok kw => .obj [("ok", kwToWire (dictOfAssignments kw)), ("vars", kwToWire env)]
+  | "allowed" =>
+    let vt := Driver.tyOfJson (j.getD "vt")
+    let lt := Driver.tyOfJson (j.getD "lt")
+    .obj [("sub", .bool (isSubtype vt lt)), ("allowed", .bool (allowedUsage vt (j.boolD "vdef") lt (j.boolD "ldef")))]
+  | "trace" =>
+    let vardefs : List VarDef := (j.arrD "vardefs").map fun d =>
+      { name := d.strD "name", type := Driver.tyOfJson (d.getD "type"),
+        default := match d.get? "default" with | some l@(.obj _) => some (litOfWire l) | _ => none }
+    let variables := pairs jvOfWire j "variables"
+    let sels : List FieldSel := (j.arrD "sels").map fun s =>
+      { key := s.strD "key", defs := (s.arrD "argdefs").map fieldOfWire, args := pairs litOfWire s "args" }
+    .obj [("events", .arr ((executeOp reg fuel vardefs variables sels).map fun ev =>
+      match ev with
+      | .call k kw => .obj [("call", .str k), ("kw", kwToWire kw)]
+      | .fieldError k => .obj [("fieldError", .str k)]
+      | .requestError => .str "requestError"
+      | .crash => .str "crash"))]
   | _ => .obj [("error", .str "bad-op")]
 
 end C07Codec
